@@ -88,7 +88,8 @@ fn gen(t: &mut Tape, _tier: Tier) -> Scenario {
         }
         2 => {
             let strict = t.below(4) != 0;
-            let b = gen_lzma2(t, 2500, strict);
+            // now and then the big plans (chunks at the 64 KiB / 2 MiB field limits)
+            let b = if t.below(40) == 0 { gen_lzma2(t, 300_000, strict) } else { gen_lzma2(t, 2500, strict) };
             input = b.bytes;
             sc.set_i("ep", [EP_LZMA2, EP_RAW_LZMA2][t.below(2) as usize]);
         }
@@ -101,6 +102,7 @@ fn gen(t: &mut Tape, _tier: Tier) -> Scenario {
                 pb: b.props.pb,
                 dict: dict as u32,
                 size: if b.marker { None } else { Some(b.expect.len() as u64) },
+                pre: None,
             };
             input = b.payload;
             sc.set_i("ep", EP_RAW_LZMA);
